@@ -455,6 +455,65 @@ def _fuse_consumer(st, parts):
     return rw(pre), tb
 
 
+def split_local_structs(body, counter):
+    """`let mut b = S { f: e1, g: e2 }; .. b.f .. (&mut b).g ..` where every use of `b` is a field access: one variable per field
+    (`let mut b.f = e1; let mut b.g = e2;`). Running state kept in a small private struct (whose methods were inlined) then reads
+    like the separate locals it replaced. Variables are identified by id; the new ones get fresh ids."""
+    cands = {}
+    for l in _find_all(body, lambda z: z.get("k") == "let" and isinstance(z.get("pat"), dict) and z["pat"].get("k") == "bind" and not z["pat"].get("sub") and isinstance(z.get("init"), dict)):
+        init = l["init"]
+        if init.get("k") == "struct" and init.get("base") is None and init.get("fields") and str((init.get("res") or {}).get("dk", "")) in ("Struct", "SelfTyAlias", "TyAlias", "SelfCtor", "") or (init.get("k") == "struct" and init.get("base") is None and init.get("fields") and not str((init.get("res") or {}).get("dk", "")).startswith(("Variant", "Ctor"))):
+            cands[l["pat"]["id"]] = l
+    if not cands:
+        return body
+    total, good = {i: 0 for i in cands}, {i: 0 for i in cands}
+    def unwrap(x):
+        while isinstance(x, dict) and (x.get("k") in ("addr", "use", "paren") or (x.get("k") == "unary" and x.get("op") == "Deref")):
+            x = x.get("e") if x.get("k") != "unary" else x.get("a")
+        return x
+    def scan(n):
+        if isinstance(n, list):
+            for x in n:
+                scan(x)
+        elif isinstance(n, dict):
+            if n.get("k") == "path" and (n.get("res") or {}).get("dk") == "Local" and n["res"].get("id") in cands:
+                total[n["res"]["id"]] += 1
+            if n.get("k") == "field":
+                b_ = unwrap(n.get("e"))
+                if isinstance(b_, dict) and b_.get("k") == "path" and (b_.get("res") or {}).get("dk") == "Local" and b_["res"].get("id") in cands and any(f_["name"] == n.get("name") for f_ in cands[b_["res"]["id"]]["init"]["fields"]):
+                    good[b_["res"]["id"]] += 1
+            for v in n.values():
+                if isinstance(v, (dict, list)):
+                    scan(v)
+    scan(body)
+    chosen = {i for i in cands if total[i] > 0 and total[i] == good[i]}
+    if not chosen:
+        return body
+    newid = {}
+    for i in chosen:
+        counter[0] += 1
+        for j, f_ in enumerate(cands[i]["init"]["fields"]):
+            newid[(i, f_["name"])] = 50_000_000 + counter[0] * 100 + j
+    def rw(n):
+        if isinstance(n, list):
+            out = []
+            for x in n:
+                if isinstance(x, dict) and x.get("k") == "let" and isinstance(x.get("pat"), dict) and x["pat"].get("k") == "bind" and x["pat"].get("id") in chosen and x is cands[x["pat"]["id"]]:
+                    for f_ in x["init"]["fields"]:
+                        out.append({"k": "let", "pat": {"k": "bind", "name": f'{x["pat"].get("name")}.{f_["name"]}', "id": newid[(x["pat"]["id"], f_["name"])], "mode": x["pat"].get("mode"), "sub": None}, "init": rw(f_["e"]), "els": None, "ln": x.get("ln"), "split": True})
+                else:
+                    out.append(rw(x))
+            return out
+        if isinstance(n, dict):
+            if n.get("k") == "field":
+                b_ = unwrap(n.get("e"))
+                if isinstance(b_, dict) and b_.get("k") == "path" and (b_.get("res") or {}).get("dk") == "Local" and (b_["res"].get("id"), n.get("name")) in newid:
+                    return {"k": "path", "res": {"dk": "Local", "id": newid[(b_["res"]["id"], n["name"])], "name": f'{b_["res"].get("name")}.{n["name"]}'}, "ln": n.get("ln"), "ln0": n.get("ln0")}
+            return {k_: rw(v_) for k_, v_ in n.items()}
+        return n
+    return rw(body)
+
+
 def hoist_inlined(node):
     """`let x = { let p = a; s1; s2; tail };` (an inlined helper that is the whole initialiser / statement / tail of a block) ->
     `let p = a; s1; s2; let x = tail;`. Variables are identified by id, so widening their scope cannot capture anything; rules
@@ -753,6 +812,7 @@ def apply(fb):
             # a closure handed to the helper as an argument is now `let f = || ..; .. f() ..` inside the inlined block
             h["body"] = inline_local_closures(h["body"], cnt)
             h["body"] = hoist_inlined(h["body"])
+            h["body"] = split_local_structs(h["body"], cnt)
             fb.inlined.append({"into": h["path"], "level": "HIR", "count": counter[0] - before})
     # a private new helper whose calls were all inlined is no longer a unit of analysis
     fb.absorbed = {k for k, b in new.items() if not b.get("pub") and remaining_calls.get(k, 0) == 0 and any(x.get("callee") == b["path"] for x in fb.inlined)}
